@@ -42,7 +42,8 @@ type AwsCase struct {
 	FailAttach   int   `json:"failAttach"` // k-th AttachInstances call fails (0 = none)
 	FailTerm     []int `json:"failTerm"`   // these TerminateInstances calls fail
 	FailNodes    []string `json:"failNodes"` // del: terminating these instances fails
-	Never     bool     `json:"never"`    // instances never become ready
+	Never     bool     `json:"never"`    // not every instance becomes ready before the deadline
+	ReadyK    int      `json:"readyK"`   // never: this many of the new instances (the first ones) do report running
 	PreFail   int      `json:"prefail"`  // consecutive failed fleet attempts before this call (never-ready)
 	// del: the nodes handed to DeleteNodes, by name; a name outside m1..m<nmemb> is a foreign node
 	List []string `json:"list"`
@@ -153,7 +154,13 @@ func runAwsCase(c AwsCase) AwsObs {
 	// refresh the cache (pre-failures may have changed nothing, but keep cache = real)
 	_ = p.Refresh()
 	a.NeverReady = c.Never
+	a.ReadyK = 0
 	if c.Never {
+		a.ReadyK = c.ReadyK
+	}
+	if c.Never && c.ReadyK > 0 {
+		cfgTimeout(ng, 1500*time.Millisecond) // long enough for one poll (the code polls every second) to see the partial readiness
+	} else if c.Never {
 		cfgTimeout(ng, 10*time.Millisecond)
 	} else {
 		cfgTimeout(ng, 1500*time.Millisecond)
